@@ -1,5 +1,6 @@
 import MdkVerif.Model.Codec
 import MdkVerif.Model.Tags
+import MdkVerif.Model.Media
 /- line protocol for the `codec` engine (C15): one op per line, one observation per line.
    Same syntax as harness/src/codec.rs; only the part left of ` | ` is produced here. -/
 namespace Driver.CodecDrv
@@ -213,6 +214,17 @@ def imetaParseOp (toks : List String) : Option String := do
   let t ← tags.head?
   pure (showImeta " " (imetaParse t))
 
+def mediaPairOp (toks : List String) : Option String := do
+  let h1 ← unhex (← field toks "h1")
+  let m1 ← unhex (← field toks "m1")
+  let f1 ← unhex (← field toks "f1")
+  let h2 ← unhex (← field toks "h2")
+  let m2 ← unhex (← field toks "m2")
+  let f2 ← unhex (← field toks "f2")
+  let sameCtx := MdkVerif.Media.keyContext h1 m1 f1 == MdkVerif.Media.keyContext h2 m2 f2
+  let sameAad := MdkVerif.Media.aad h1 m1 f1 == MdkVerif.Media.aad h2 m2 f2
+  pure ("ctx=" ++ (if sameCtx then "same" else "diff") ++ " aad=" ++ (if sameAad then "open" else "fail"))
+
 def exec (toks : List String) : String :=
   let r := match toks with
     | "pool" :: _ => some "ok"
@@ -225,6 +237,7 @@ def exec (toks : List String) : String :=
     | "hex_gid" :: _ => hexGidOp toks
     | "imeta_create" :: _ => imetaCreateOp toks
     | "imeta_parse" :: _ => imetaParseOp toks
+    | "media_pair" :: _ => mediaPairOp toks
     | _ => none
   r.getD "bad-op"
 
